@@ -343,3 +343,496 @@ theorem handleExceptionCall_foot (hm : K .metric = true) (hl : K .log = true)
 
 end
 end Redress
+
+
+/-! ## A second relation: what does not touch the policy's `ExecutionContext` or the embedded breaker
+
+`Foot` does not constrain `World.xc` / `World.breaker`.  `Ext K w w'` says: the log grew by exchanges
+whose request kinds satisfy `K`, and `xc` and `breaker` are the same (everything else is free).  It is
+proved below for EVERY procedure of the retry loop, up to `runCall` / `runExecute`, with
+`K = loopK` (every request kind but the breaker's four): the loop never talks to the breaker and never
+touches the execution context — only the `Policy.*` procedures do.  (Used by C07–C09.) -/
+
+namespace Redress
+open Retry
+
+def loopK : Kind → Bool
+  | .breakerAllow | .breakerSuccess | .breakerFailure | .breakerCancel => false
+  | _ => true
+
+/-- `Ext` on the projections: the log grew by exchanges of kinds in `K`; execution context and
+    embedded breaker are the same -/
+structure ExtP (K : Kind → Bool) (tr : List (Req × Ans)) (xc : XCtx) (br : Breaker.St)
+    (tr' : List (Req × Ans)) (xc' : XCtx) (br' : Breaker.St) : Prop where
+  trace : ∃ δ, tr' = δ ++ tr ∧ ∀ x ∈ δ, K x.1.kind = true
+  xc : xc' = xc
+  breaker : br' = br
+
+/-- `w'` arises from `w` by appending exchanges whose request kinds satisfy `K` (and anything that
+    does not touch the log, the policy's `ExecutionContext` or the embedded breaker) -/
+def Ext (K : Kind → Bool) (w w' : World) : Prop :=
+  ExtP K w.trace w.xc w.breaker w'.trace w'.xc w'.breaker
+
+theorem ExtP.refl (K : Kind → Bool) (tr : List (Req × Ans)) (xc : XCtx) (br : Breaker.St) :
+    ExtP K tr xc br tr xc br := ⟨⟨[], by simp, by simp⟩, rfl, rfl⟩
+
+theorem ExtP.trans {K : Kind → Bool} {t₁ t₂ t₃ : List (Req × Ans)} {x₁ x₂ x₃ : XCtx}
+    {b₁ b₂ b₃ : Breaker.St} (h₁ : ExtP K t₁ x₁ b₁ t₂ x₂ b₂) (h₂ : ExtP K t₂ x₂ b₂ t₃ x₃ b₃) :
+    ExtP K t₁ x₁ b₁ t₃ x₃ b₃ := by
+  obtain ⟨δ₁, e₁, k₁⟩ := h₁.trace
+  obtain ⟨δ₂, e₂, k₂⟩ := h₂.trace
+  refine ⟨⟨δ₂ ++ δ₁, by simp [e₂, e₁], ?_⟩, by rw [h₂.xc, h₁.xc], by rw [h₂.breaker, h₁.breaker]⟩
+  intro x hx
+  rcases List.mem_append.mp hx with h | h
+  · exact k₂ x h
+  · exact k₁ x h
+
+/-- one exchange logged -/
+theorem ExtP.cons {K : Kind → Bool} (r : Req) (a : Ans) (tr : List (Req × Ans)) (xc : XCtx)
+    (br : Breaker.St) (hk : K r.kind = true) : ExtP K tr xc br ((r, a) :: tr) xc br :=
+  ⟨⟨[(r, a)], by simp, by simp [hk]⟩, rfl, rfl⟩
+
+theorem Ext.refl (K : Kind → Bool) (w : World) : Ext K w w := ExtP.refl ..
+
+theorem Ext.trans {K : Kind → Bool} {w₁ w₂ w₃ : World} (h₁ : Ext K w₁ w₂) (h₂ : Ext K w₂ w₃) :
+    Ext K w₁ w₃ := ExtP.trans h₁ h₂
+
+theorem Ext.mono {K K' : Kind → Bool} {w w' : World} (h : Ext K w w')
+    (hk : ∀ k, K k = true → K' k = true) : Ext K' w w' := by
+  obtain ⟨δ, e, k⟩ := h.trace
+  exact ⟨⟨δ, e, fun x hx => hk _ (k x hx)⟩, h.xc, h.breaker⟩
+
+abbrev extPost (K : Kind → Bool) (w0 : World) : PostCond α (.except Exn (.arg World .pure)) :=
+  post⟨fun _ w => ⌜Ext K w0 w⌝, fun _ w => ⌜Ext K w0 w⌝⟩
+
+syntax "ext_chain" : tactic
+macro_rules
+  | `(tactic| ext_chain) => `(tactic| first
+      | assumption
+      | exact ExtP.refl _ _ _ _
+      | exact ExtP.cons _ _ _ _ _ (by first | assumption | rfl)
+      | (refine ExtP.trans (by assumption) ?_; ext_chain))
+
+macro "ext_close" : tactic => `(tactic| all_goals (
+  (try subst_vars) <;> (try intros) <;>
+  (try simp +zetaDelta only [Ext, restore_dummy, true_and, and_true, ne_eq, reduceCtorEq, not_false_eq_true,
+    false_implies, implies_true, forall_const] at *) <;>
+  first
+    | assumption
+    | rfl
+    | ext_chain
+    | (simp_all; done)
+    | skip))
+
+section
+variable (K : Kind → Bool) (w0 : World)
+
+theorem ask_ext (r : Req) (hk : K r.kind = true) :
+    ⦃fun w => ⌜Ext K w0 w⌝⦄ ask r ⦃extPost K w0⦄ := by
+  mvcgen [ask]
+  ext_close
+
+
+attribute [local spec] ask_ext
+end
+
+section loopProcs
+variable (w0 : World)
+
+theorem ask_loop (r : Req) (hk : loopK r.kind = true) :
+    ⦃fun w => ⌜Ext loopK w0 w⌝⦄ ask r ⦃extPost loopK w0⦄ := ask_ext loopK w0 r hk
+end loopProcs
+attribute [local spec] ask_loop
+
+theorem askMetric_ext (w0 : World) (ev : Event) (a s : Nat) (t : Tags) :
+    ⦃fun w => ⌜Ext loopK w0 w⌝⦄ askMetric ev a s t ⦃extPost loopK w0⦄ := by
+  mvcgen [askMetric]
+  ext_close
+attribute [local spec] askMetric_ext
+
+theorem askLog_ext (w0 : World) (ev : Event) (a s : Nat) (t : Tags) (ra : Option Int) :
+    ⦃fun w => ⌜Ext loopK w0 w⌝⦄ askLog ev a s t ra ⦃extPost loopK w0⦄ := by
+  mvcgen [askLog]
+  ext_close
+attribute [local spec] askLog_ext
+
+theorem setStop_ext (w0 : World) (s : StopReason) :
+    ⦃fun w => ⌜Ext loopK w0 w⌝⦄ setStop s ⦃extPost loopK w0⦄ := by
+  mvcgen [setStop, modifyRS]
+  ext_close
+attribute [local spec] setStop_ext
+
+theorem recordTimeline_ext (w0 : World) (ev : Event) (a s : Nat) (t : Tags) :
+    ⦃fun w => ⌜Ext loopK w0 w⌝⦄ recordTimeline ev a s t ⦃extPost loopK w0⦄ := by
+  mvcgen [recordTimeline]
+  ext_close
+attribute [local spec] recordTimeline_ext
+
+theorem metricHook_ext (w0 : World) (cfg : Cfg) (tl : Bool) (ev : Event) (a s : Nat) (t : Tags) :
+    ⦃fun w => ⌜Ext loopK w0 w⌝⦄ metricHook cfg tl ev a s t ⦃extPost loopK w0⦄ := by
+  mvcgen [metricHook]
+  ext_close
+attribute [local spec] metricHook_ext
+
+theorem emit_ext (w0 : World) (cfg : Cfg) (tl : Bool) (ev : Event) (attempt sleep : Nat) (klass : Option EClass) (exc : Option Exn) (stop : Option StopReason) (cause : Option Cause) (cls : Option Classification) :
+    ⦃fun w => ⌜Ext loopK w0 w⌝⦄ emit cfg tl ev attempt sleep klass exc stop cause cls ⦃extPost loopK w0⦄ := by
+  mvcgen [emit, swallowException]
+  ext_close
+attribute [local spec] emit_ext
+
+theorem checkAbort_ext (w0 : World) (cfg : Cfg) (tl : Bool) (attempt : Nat) :
+    ⦃fun w => ⌜Ext loopK w0 w⌝⦄ checkAbort cfg tl attempt ⦃extPost loopK w0⦄ := by
+  mvcgen [checkAbort]
+  ext_close
+attribute [local spec] checkAbort_ext
+
+theorem retryRecordFailure_ext (w0 : World) (c : Classification) (cause : Cause) (e : Option Exn) (r : Option Nat) :
+    ⦃fun w => ⌜Ext loopK w0 w⌝⦄ Retry.recordFailure c cause e r ⦃extPost loopK w0⦄ := by
+  mvcgen [Retry.recordFailure, modifyRS]
+  ext_close
+attribute [local spec] retryRecordFailure_ext
+
+theorem recordStrategySuccess_ext (w0 : World) (cfg : Cfg) :
+    ⦃fun w => ⌜Ext loopK w0 w⌝⦄ recordStrategySuccess cfg ⦃extPost loopK w0⦄ := by
+  mvcgen [recordStrategySuccess, getRS]
+  ext_close
+attribute [local spec] recordStrategySuccess_ext
+
+theorem callStrategy_ext (w0 : World) (key : SKey) (kind : SKind) (ctx : BackoffCtx) :
+    ⦃fun w => ⌜Ext loopK w0 w⌝⦄ callStrategy key kind ctx ⦃extPost loopK w0⦄ := by
+  mvcgen [callStrategy]
+  ext_close
+attribute [local spec] callStrategy_ext
+
+theorem stratRecordFailure_ext (w0 : World) (cfg : Cfg) (key : SKey) (k : EClass) :
+    ⦃fun w => ⌜Ext loopK w0 w⌝⦄ stratRecordFailure cfg key k ⦃extPost loopK w0⦄ := by
+  mvcgen [stratRecordFailure]
+  ext_close
+attribute [local spec] stratRecordFailure_ext
+
+theorem budgetConsume_ext (w0 : World) (cfg : Cfg) :
+    ⦃fun w => ⌜Ext loopK w0 w⌝⦄ budgetConsume cfg ⦃extPost loopK w0⦄ := by
+  mvcgen [budgetConsume]
+  ext_close
+attribute [local spec] budgetConsume_ext
+
+theorem stopWith_ext (w0 : World) (cfg : Cfg) (tl : Bool) (s : StopReason) (ev : Event) (attempt : Nat) (k : EClass) (exc : Option Exn) (cause : Cause) :
+    ⦃fun w => ⌜Ext loopK w0 w⌝⦄ stopWith cfg tl s ev attempt k exc cause ⦃extPost loopK w0⦄ := by
+  mvcgen [stopWith]
+  ext_close
+attribute [local spec] stopWith_ext
+
+theorem grantRetry_ext (w0 : World) (cfg : Cfg) (tl : Bool) (c : Classification) (a : Nat) (cause : Cause) (e : Option Exn) (key : SKey) (kind : SKind) (rem : Nat) :
+    ⦃fun w => ⌜Ext loopK w0 w⌝⦄ grantRetry cfg tl c a cause e key kind rem ⦃extPost loopK w0⦄ := by
+  mvcgen [grantRetry, getRS, modifyRS]
+  ext_close
+attribute [local spec] grantRetry_ext
+
+theorem handleFailure2_ext (w0 : World) (cfg : Cfg) (tl : Bool) (c : Classification) (a : Nat) (cause : Cause) (e : Option Exn) :
+    ⦃fun w => ⌜Ext loopK w0 w⌝⦄ handleFailure2 cfg tl c a cause e ⦃extPost loopK w0⦄ := by
+  mvcgen [handleFailure2, elapsed, modifyRS]
+  ext_close
+attribute [local spec] handleFailure2_ext
+
+theorem handleUnknown_ext (w0 : World) (cfg : Cfg) (tl : Bool) (c : Classification) (a : Nat) (cause : Cause) (e : Option Exn) :
+    ⦃fun w => ⌜Ext loopK w0 w⌝⦄ handleUnknown cfg tl c a cause e ⦃extPost loopK w0⦄ := by
+  mvcgen [handleUnknown, getRS, modifyRS]
+  ext_close
+attribute [local spec] handleUnknown_ext
+
+theorem handleFailure1_ext (w0 : World) (cfg : Cfg) (tl : Bool) (c : Classification) (a : Nat) (cause : Cause) (e : Option Exn) :
+    ⦃fun w => ⌜Ext loopK w0 w⌝⦄ handleFailure1 cfg tl c a cause e ⦃extPost loopK w0⦄ := by
+  mvcgen [handleFailure1, getRS]
+  ext_close
+attribute [local spec] handleFailure1_ext
+
+theorem handleFailure_ext (w0 : World) (cfg : Cfg) (tl : Bool) (c : Classification) (a : Nat) (cause : Cause) (e : Option Exn) (r : Option Nat) :
+    ⦃fun w => ⌜Ext loopK w0 w⌝⦄ handleFailure cfg tl c a cause e r ⦃extPost loopK w0⦄ := by
+  mvcgen [handleFailure, modifyRS]
+  ext_close
+attribute [local spec] handleFailure_ext
+
+theorem callClassifier_ext (w0 : World) (e : Exn) :
+    ⦃fun w => ⌜Ext loopK w0 w⌝⦄ callClassifier e ⦃extPost loopK w0⦄ := by
+  mvcgen [callClassifier]
+  ext_close
+attribute [local spec] callClassifier_ext
+
+theorem handleException_ext (w0 : World) (cfg : Cfg) (tl : Bool) (e : Exn) (a : Nat) :
+    ⦃fun w => ⌜Ext loopK w0 w⌝⦄ handleException cfg tl e a ⦃extPost loopK w0⦄ := by
+  mvcgen [handleException]
+  ext_close
+attribute [local spec] handleException_ext
+
+theorem buildOutcome_ext (w0 : World) (ok : Bool) (value : Option Nat) (n : Nat) (ns : Option Nat) :
+    ⦃fun w => ⌜Ext loopK w0 w⌝⦄ buildOutcome ok value n ns ⦃extPost loopK w0⦄ := by
+  mvcgen [buildOutcome, getRS, elapsed]
+  ext_close
+attribute [local spec] buildOutcome_ext
+
+theorem emitAbortedOnce_ext (w0 : World) (cfg : Cfg) (tl : Bool) (a : Nat) :
+    ⦃fun w => ⌜Ext loopK w0 w⌝⦄ emitAbortedOnce cfg tl a ⦃extPost loopK w0⦄ := by
+  mvcgen [emitAbortedOnce, getRS]
+  ext_close
+attribute [local spec] emitAbortedOnce_ext
+
+theorem abortOutcome_ext (w0 : World) (cfg : Cfg) (tl : Bool) (a : Nat) :
+    ⦃fun w => ⌜Ext loopK w0 w⌝⦄ abortOutcome cfg tl a ⦃extPost loopK w0⦄ := by
+  mvcgen [abortOutcome]
+  ext_close
+attribute [local spec] abortOutcome_ext
+
+theorem callAttemptStart_ext (w0 : World) (cfg : Cfg) (a : Nat) :
+    ⦃fun w => ⌜Ext loopK w0 w⌝⦄ callAttemptStart cfg a ⦃extPost loopK w0⦄ := by
+  mvcgen [callAttemptStart, elapsed]
+  ext_close
+attribute [local spec] callAttemptStart_ext
+
+theorem callAttemptEnd_ext (w0 : World) (cfg : Cfg) (attempt : Nat) (cls : Option Classification) (exc : Option Exn) (result : Option Nat) (d : AttemptDecision) (stop : Option StopReason) (cause : Option Cause) (sleep : Option Nat) :
+    ⦃fun w => ⌜Ext loopK w0 w⌝⦄ callAttemptEnd cfg attempt cls exc result d stop cause sleep ⦃extPost loopK w0⦄ := by
+  mvcgen [callAttemptEnd, elapsed]
+  ext_close
+attribute [local spec] callAttemptEnd_ext
+
+theorem callAttemptEndFromOutcome_ext (w0 : World) (cfg : Cfg) (a : Nat) (o : AOutcome) :
+    ⦃fun w => ⌜Ext loopK w0 w⌝⦄ callAttemptEndFromOutcome cfg a o ⦃extPost loopK w0⦄ := by
+  mvcgen [callAttemptEndFromOutcome]
+  ext_close
+attribute [local spec] callAttemptEndFromOutcome_ext
+
+theorem finalizeAttempt_ext (w0 : World) (cfg : Cfg) (tl : Bool) (a : Nat) (d : Decision) (act : Option SleepDecision) (cls : Option Classification) (e : Option Exn) (r : Option Nat) (c : Option Cause) :
+    ⦃fun w => ⌜Ext loopK w0 w⌝⦄ finalizeAttempt cfg tl a d act cls e r c ⦃extPost loopK w0⦄ := by
+  mvcgen [finalizeAttempt, getRS, elapsed]
+  ext_close
+attribute [local spec] finalizeAttempt_ext
+
+theorem handleSleepDecision_ext (w0 : World) (cfg : Cfg) (tl : Bool) (act : SleepDecision) (a s : Nat) :
+    ⦃fun w => ⌜Ext loopK w0 w⌝⦄ handleSleepDecision cfg tl act a s ⦃extPost loopK w0⦄ := by
+  mvcgen [handleSleepDecision, getRS]
+  ext_close
+attribute [local spec] handleSleepDecision_ext
+
+theorem callBeforeSleep_ext (w0 : World) (cfg : Cfg) (ctx : BackoffCtx) (s : Nat) :
+    ⦃fun w => ⌜Ext loopK w0 w⌝⦄ callBeforeSleep cfg ctx s ⦃extPost loopK w0⦄ := by
+  mvcgen [callBeforeSleep, swallowException]
+  ext_close
+attribute [local spec] callBeforeSleep_ext
+
+theorem callSleeper_ext (w0 : World) (cfg : Cfg) (s : Nat) :
+    ⦃fun w => ⌜Ext loopK w0 w⌝⦄ callSleeper cfg s ⦃extPost loopK w0⦄ := by
+  mvcgen [callSleeper]
+  ext_close
+attribute [local spec] callSleeper_ext
+
+theorem callSleepHandler_ext (w0 : World) (lvl : Lvl) (ctx : BackoffCtx) (s : Nat) :
+    ⦃fun w => ⌜Ext loopK w0 w⌝⦄ callSleepHandler lvl ctx s ⦃extPost loopK w0⦄ := by
+  mvcgen [callSleepHandler]
+  ext_close
+attribute [local spec] callSleepHandler_ext
+
+theorem sleepAction_ext (w0 : World) (cfg : Cfg) (tl : Bool) (a s : Nat) (ctx : BackoffCtx) :
+    ⦃fun w => ⌜Ext loopK w0 w⌝⦄ sleepAction cfg tl a s ctx ⦃extPost loopK w0⦄ := by
+  mvcgen [sleepAction]
+  ext_close
+attribute [local spec] sleepAction_ext
+
+theorem failureOutcome_ext (w0 : World) (cfg : Cfg) (tl : Bool) (a : Nat) (d : Decision) (cls : Option Classification) (e : Option Exn) (r : Option Nat) (c : Option Cause) :
+    ⦃fun w => ⌜Ext loopK w0 w⌝⦄ failureOutcome cfg tl a d cls e r c ⦃extPost loopK w0⦄ := by
+  mvcgen [failureOutcome]
+  ext_close
+attribute [local spec] failureOutcome_ext
+
+theorem shouldClassifyResult_ext (w0 : World) (cfg : Cfg) (x : Nat) :
+    ⦃fun w => ⌜Ext loopK w0 w⌝⦄ shouldClassifyResult cfg x ⦃extPost loopK w0⦄ := by
+  mvcgen [shouldClassifyResult]
+  ext_close
+attribute [local spec] shouldClassifyResult_ext
+
+theorem handleSuccessAttemptEnd_ext (w0 : World) (cfg : Cfg) (tl : Bool) (a x : Nat) :
+    ⦃fun w => ⌜Ext loopK w0 w⌝⦄ handleSuccessAttemptEnd cfg tl a x ⦃extPost loopK w0⦄ := by
+  mvcgen [handleSuccessAttemptEnd]
+  ext_close
+attribute [local spec] handleSuccessAttemptEnd_ext
+
+theorem handleAbortAttemptEnd_ext (w0 : World) (cfg : Cfg) (a : Nat) (e : Exn) :
+    ⦃fun w => ⌜Ext loopK w0 w⌝⦄ handleAbortAttemptEnd cfg a e ⦃extPost loopK w0⦄ := by
+  mvcgen [handleAbortAttemptEnd, getAS, modifyAS]
+  ext_close
+attribute [local spec] handleAbortAttemptEnd_ext
+
+theorem emitMaxAttemptsExceeded_ext (w0 : World) (cfg : Cfg) (tl : Bool) :
+    ⦃fun w => ⌜Ext loopK w0 w⌝⦄ emitMaxAttemptsExceeded cfg tl ⦃extPost loopK w0⦄ := by
+  mvcgen [emitMaxAttemptsExceeded, getRS]
+  ext_close
+attribute [local spec] emitMaxAttemptsExceeded_ext
+
+theorem raiseExhaustedCall_ext (w0 : World) (cfg : Cfg) :
+    ⦃fun w => ⌜Ext loopK w0 w⌝⦄ raiseExhaustedCall cfg ⦃extPost loopK w0⦄ := by
+  mvcgen [raiseExhaustedCall, getRS]
+  ext_close
+attribute [local spec] raiseExhaustedCall_ext
+
+theorem invokeOp_ext (w0 : World) (a : Nat) :
+    ⦃fun w => ⌜Ext loopK w0 w⌝⦄ invokeOp a ⦃extPost loopK w0⦄ := by
+  mvcgen [invokeOp]
+  ext_close
+attribute [local spec] invokeOp_ext
+
+theorem deliverCall_ext (w0 : World) (act : Action) (orig : Option Exn) (fb : ExhaustedFields) :
+    ⦃fun w => ⌜Ext loopK w0 w⌝⦄ deliverCall act orig fb ⦃extPost loopK w0⦄ := by
+  mvcgen [deliverCall]
+  ext_close
+attribute [local spec] deliverCall_ext
+
+theorem callExceptionPath_ext (w0 : World) (cfg : Cfg) (a : Nat) (e : Exn) :
+    ⦃fun w => ⌜Ext loopK w0 w⌝⦄ callExceptionPath cfg a e ⦃extPost loopK w0⦄ := by
+  mvcgen [callExceptionPath, getRS, modifyAS]
+  ext_close
+attribute [local spec] callExceptionPath_ext
+
+theorem callOpHandler_ext (w0 : World) (cfg : Cfg) (a : Nat) (e : Exn) :
+    ⦃fun w => ⌜Ext loopK w0 w⌝⦄ callOpHandler cfg a e ⦃extPost loopK w0⦄ := by
+  mvcgen [callOpHandler]
+  ext_close
+attribute [local spec] callOpHandler_ext
+
+theorem callResultFailure_ext (w0 : World) (cfg : Cfg) (a x : Nat) (c : Classification) :
+    ⦃fun w => ⌜Ext loopK w0 w⌝⦄ callResultFailure cfg a x c ⦃extPost loopK w0⦄ := by
+  mvcgen [callResultFailure, getRS, modifyAS]
+  ext_close
+attribute [local spec] callResultFailure_ext
+
+theorem callResultPath_ext (w0 : World) (cfg : Cfg) (a x : Nat) :
+    ⦃fun w => ⌜Ext loopK w0 w⌝⦄ callResultPath cfg a x ⦃extPost loopK w0⦄ := by
+  mvcgen [callResultPath]
+  ext_close
+attribute [local spec] callResultPath_ext
+
+theorem callAttempt_ext (w0 : World) (cfg : Cfg) (a : Nat) :
+    ⦃fun w => ⌜Ext loopK w0 w⌝⦄ callAttempt cfg a ⦃extPost loopK w0⦄ := by
+  mvcgen [callAttempt, modifyAS]
+  ext_close
+attribute [local spec] callAttempt_ext
+
+theorem callLoop_ext (w0 : World) (cfg : Cfg) : ∀ (fuel a : Nat),
+    ⦃fun w => ⌜Ext loopK w0 w⌝⦄ callLoop cfg fuel a ⦃extPost loopK w0⦄ := by
+  intro fuel
+  induction fuel with
+  | zero => intro a; mvcgen [callLoop]; ext_close
+  | succ f ih =>
+    intro a
+    have h := ih (a + 1)
+    mvcgen [callLoop, h]
+    ext_close
+attribute [local spec] callLoop_ext
+
+theorem initState_ext (w0 : World)  :
+    ⦃fun w => ⌜Ext loopK w0 w⌝⦄ initState ⦃extPost loopK w0⦄ := by
+  mvcgen [initState]
+  ext_close
+attribute [local spec] initState_ext
+
+theorem runCall_ext (w0 : World) (cfg : Cfg) :
+    ⦃fun w => ⌜Ext loopK w0 w⌝⦄ runCall cfg ⦃extPost loopK w0⦄ := by
+  mvcgen [runCall]
+  ext_close
+attribute [local spec] runCall_ext
+
+theorem deliverExecute_ext (w0 : World) (cfg : Cfg) (tl : Bool) (act : Action) (o : AOutcome) :
+    ⦃fun w => ⌜Ext loopK w0 w⌝⦄ deliverExecute cfg tl act o ⦃extPost loopK w0⦄ := by
+  mvcgen [deliverExecute]
+  ext_close
+attribute [local spec] deliverExecute_ext
+
+theorem execResultFailure_ext (w0 : World) (cfg : Cfg) (tl : Bool) (a x : Nat) (c : Classification) :
+    ⦃fun w => ⌜Ext loopK w0 w⌝⦄ execResultFailure cfg tl a x c ⦃extPost loopK w0⦄ := by
+  mvcgen [execResultFailure, getRS, modifyAS]
+  ext_close
+attribute [local spec] execResultFailure_ext
+
+theorem execPre_ext (w0 : World) (cfg : Cfg) (tl : Bool) (a : Nat) :
+    ⦃fun w => ⌜Ext loopK w0 w⌝⦄ execPre cfg tl a ⦃extPost loopK w0⦄ := by
+  mvcgen [execPre, modifyAS]
+  ext_close
+attribute [local spec] execPre_ext
+
+theorem execResultPath_ext (w0 : World) (cfg : Cfg) (tl : Bool) (a x : Nat) :
+    ⦃fun w => ⌜Ext loopK w0 w⌝⦄ execResultPath cfg tl a x ⦃extPost loopK w0⦄ := by
+  mvcgen [execResultPath]
+  ext_close
+attribute [local spec] execResultPath_ext
+
+theorem execAbortExit_ext (w0 : World) (cfg : Cfg) (tl : Bool) (a : Nat) (e : Exn) :
+    ⦃fun w => ⌜Ext loopK w0 w⌝⦄ execAbortExit cfg tl a e ⦃extPost loopK w0⦄ := by
+  mvcgen [execAbortExit]
+  ext_close
+attribute [local spec] execAbortExit_ext
+
+theorem checkAbortCaught_ext (w0 : World) (cfg : Cfg) (tl : Bool) (a : Nat) :
+    ⦃fun w => ⌜Ext loopK w0 w⌝⦄ checkAbortCaught cfg tl a ⦃extPost loopK w0⦄ := by
+  mvcgen [checkAbortCaught, abortToTrue]
+  ext_close
+attribute [local spec] checkAbortCaught_ext
+
+theorem execExceptionPath3_ext (w0 : World) (cfg : Cfg) (tl : Bool) (a : Nat) (e : Exn) (d : Decision) :
+    ⦃fun w => ⌜Ext loopK w0 w⌝⦄ execExceptionPath3 cfg tl a e d ⦃extPost loopK w0⦄ := by
+  mvcgen [execExceptionPath3, getRS, modifyAS]
+  ext_close
+attribute [local spec] execExceptionPath3_ext
+
+theorem execExceptionPath2_ext (w0 : World) (cfg : Cfg) (tl : Bool) (a : Nat) (e : Exn) :
+    ⦃fun w => ⌜Ext loopK w0 w⌝⦄ execExceptionPath2 cfg tl a e ⦃extPost loopK w0⦄ := by
+  mvcgen [execExceptionPath2, getRS, modifyAS]
+  ext_close
+attribute [local spec] execExceptionPath2_ext
+
+theorem execExceptionPath_ext (w0 : World) (cfg : Cfg) (tl : Bool) (a : Nat) (e : Exn) :
+    ⦃fun w => ⌜Ext loopK w0 w⌝⦄ execExceptionPath cfg tl a e ⦃extPost loopK w0⦄ := by
+  mvcgen [execExceptionPath, modifyAS]
+  ext_close
+attribute [local spec] execExceptionPath_ext
+
+theorem execHandler_ext (w0 : World) (cfg : Cfg) (tl : Bool) (a : Nat) (e : Exn) :
+    ⦃fun w => ⌜Ext loopK w0 w⌝⦄ execHandler cfg tl a e ⦃extPost loopK w0⦄ := by
+  mvcgen [execHandler]
+  ext_close
+attribute [local spec] execHandler_ext
+
+theorem execReturnedHandler_ext (w0 : World) (cfg : Cfg) (tl : Bool) (a : Nat) (e : Exn) :
+    ⦃fun w => ⌜Ext loopK w0 w⌝⦄ execReturnedHandler cfg tl a e ⦃extPost loopK w0⦄ := by
+  mvcgen [execReturnedHandler]
+  ext_close
+attribute [local spec] execReturnedHandler_ext
+
+theorem execAttempt_ext (w0 : World) (cfg : Cfg) (tl : Bool) (a : Nat) :
+    ⦃fun w => ⌜Ext loopK w0 w⌝⦄ execAttempt cfg tl a ⦃extPost loopK w0⦄ := by
+  mvcgen [execAttempt]
+  ext_close
+attribute [local spec] execAttempt_ext
+
+theorem buildExhaustedOutcome_ext (w0 : World) (cfg : Cfg) (tl : Bool) :
+    ⦃fun w => ⌜Ext loopK w0 w⌝⦄ buildExhaustedOutcome cfg tl ⦃extPost loopK w0⦄ := by
+  mvcgen [buildExhaustedOutcome]
+  ext_close
+attribute [local spec] buildExhaustedOutcome_ext
+
+theorem execLoop_ext (w0 : World) (cfg : Cfg) (tl : Bool) : ∀ (fuel a : Nat),
+    ⦃fun w => ⌜Ext loopK w0 w⌝⦄ execLoop cfg tl fuel a ⦃extPost loopK w0⦄ := by
+  intro fuel
+  induction fuel with
+  | zero => intro a; mvcgen [execLoop]; ext_close
+  | succ f ih =>
+    intro a
+    have h := ih (a + 1)
+    mvcgen [execLoop, h]
+    ext_close
+attribute [local spec] execLoop_ext
+
+theorem runExecute_ext (w0 : World) (cfg : Cfg) :
+    ⦃fun w => ⌜Ext loopK w0 w⌝⦄ runExecute cfg ⦃extPost loopK w0⦄ := by
+  mvcgen [runExecute]
+  ext_close
+attribute [local spec] runExecute_ext
+
+
+end Redress
